@@ -822,6 +822,11 @@ func (e *SEnv) evalCall(n *SCall) Val {
 			if n.Fun == "lastretb" {
 				return specBool(False)
 			}
+			// never called on this path: an arbitrary value -- of the callee's result type when the
+			// function under verification contains such a call (so that field selections type-check)
+			if sig := e.r.histSigs[n.Args[0].(*SStrL).V]; sig != nil && sig.Results().Len() > ri && !ok {
+				return freshVal("nevercalled", sig.Results().At(ri).Type())
+			}
 			return specInt(Fresh("nevercalled", SInt))
 		}
 		return rec.rets[ri]
